@@ -20,7 +20,7 @@ def target_dir(ctx):
     return os.path.join(common.WORK, "target-gendrv-%s" % ctx.tier)
 
 
-def emit(ctx, exclude=()):
+def emit(ctx, exclude=(), reduced=()):
     binary = common.cargo_build("layoutmon", "fastdebug")
     d = crate_dir(ctx)
     count = 8 if ctx.quick else 48
@@ -28,6 +28,8 @@ def emit(ctx, exclude=()):
     cmd = [binary, "emit", "--seed", str(ctx.seed), "--count", str(count), "--out-dir", d, "--caps", caps]
     if exclude:
         cmd += ["--exclude", ",".join(sorted(exclude))]
+    if reduced:
+        cmd += ["--reduced", ",".join(sorted(reduced))]
     with common.Lock("gendrv-emit"):
         rc, out, err = common.sh(cmd, timeout=600)
     if rc != 0:
@@ -49,6 +51,20 @@ def failing_modules(stderr):
     return bad
 
 
+def failing_drivers(stderr):
+    """Modules whose *driver* (dK.rs) does not compile against the generated text: the
+    generated interface is not the one the definition promises."""
+    bad = {}
+    last_err = ""
+    for l in (stderr or "").splitlines():
+        if l.startswith("error"):
+            last_err = l.strip()
+        m = re.search(r"--> src/d(\d+)\.rs:(\d+)", l)
+        if m and last_err:
+            bad.setdefault("m" + m.group(1), "%s (src/d%s.rs:%s)" % (last_err, m.group(1), m.group(2)))
+    return bad
+
+
 def build(ctx, d, profile, hooks, check_only=False):
     cmd = ["cargo", "check" if check_only else "build", "--offline"]
     if profile == "release":
@@ -67,8 +83,10 @@ def prepare(ctx, combos):
     generated text does not compile are reported (C13) and excluded so that the other
     properties can still be decided on the rest. Returns (dir, manifest, {combo: binary})."""
     exclude = {}
-    for attempt in range(4):
-        d, manifest = emit(ctx, exclude=exclude.keys())
+    reduced = {}
+    ctx.interface_mismatch = {}
+    for attempt in range(6):
+        d, manifest = emit(ctx, exclude=exclude.keys(), reduced=reduced.keys())
         for m in manifest["modules"]:
             if m["status"] != "emitted" and not m["status"].startswith("excluded"):
                 # the builder or the generator refused / panicked on a definition of the sample
@@ -85,10 +103,20 @@ def prepare(ctx, combos):
             ctx.excluded_modules = exclude
             return d, manifest, binaries
         bad = failing_modules(failed)
-        if not bad:
+        badd = failing_drivers(failed)
+        if not bad and not badd:
             tail = "\n".join((failed or "").splitlines()[-30:])
             raise Inconclusive("the generated-driver crate does not build and no generated module is to blame:\n%s" % tail)
         exclude.update(bad)
+        for name, err in badd.items():
+            if name in bad:
+                continue
+            if name not in reduced:
+                # first retry without the returning conversion forms
+                reduced[name] = err
+            else:
+                exclude[name] = "driver does not compile against the generated interface: " + err
+            ctx.interface_mismatch[name] = err
     raise Inconclusive("generated-driver crate still failing after excluding %s" % sorted(exclude))
 
 
@@ -238,6 +266,15 @@ def after_prepare(ctx, manifest, pid):
                           "C13 %s | %s" % (m["status"][:80], m["history"]), {"definition": m["history"]})
     elif ctx.excluded_modules:
         ctx.count("modules_excluded_because_they_do_not_compile", len(ctx.excluded_modules))
+    if pid in ("C04", "C05") and getattr(ctx, "interface_mismatch", None):
+        # the driver is derived from the definition: when it does not compile against the
+        # generated text, the generated interface does not offer what the definition promises
+        for name, err in ctx.interface_mismatch.items():
+            returning = "AndUnpackedOut" in err or "no field" in err or "pattern" in err
+            if (pid == "C05") == bool(returning):
+                hist = ctx.module_history.get(name, "")
+                ctx.violation("generated-interface-differs-from-definition", "%s: %s | definition: %s" % (name, err, hist),
+                              "%s interface %s | %s" % (pid, re.sub(r"\d+", "#", err)[:160], hist), {"module": name, "definition": hist, "crate": crate_dir(ctx)})
 
 
 def standard_native(ctx, pid, binaries):
